@@ -85,6 +85,9 @@ def worklist_function():
     return ns['worklist'], [ast.unparse(n).split('\n')[0] for n in sl]
 
 
+REAL_LT = None
+
+
 class Env:
     """proofreader + generators initialised from the real `vars`"""
     def __init__(self, argv, replace=None, define=None):
@@ -106,6 +109,9 @@ class Env:
                                'enablecategories': enablecategories,
                                'lt_options': list(lt_options)})
             return self.answer(plain, language, len(self.calls) - 1)
+        global REAL_LT
+        if REAL_LT is None:
+            REAL_LT = proofreader.run_languagetool
         proofreader.run_languagetool = fake_lt
 
     def json_get(self):
